@@ -38,6 +38,6 @@ CFG = {'assumptions': ['monotone fragment'],
  'theorem_backed': 'sharded table merge = serial merge for every shard function of the key, every processing '
                    "order and every merge function; splitting one iteration's matches among workers does not "
                    'change lattice-merge values',
- 'tier_a': ['UFSeq', 'MergeArms', 'BridgeFns'],
+ 'tier_a': ['UFSeq', 'MergeArms', 'BridgeFns', 'Facts.shard_hash'],
  'trusted': ['hand-written model coq/Egg/Model.v + Egg/Rules.v tied to the engine by the correspondence '
              'check; the sharding/scheduling oracle of the theorems is universally quantified']}
